@@ -22,6 +22,7 @@ import (
 	"github.com/tendermint/fundraising/app"
 	"github.com/tendermint/fundraising/testutil/testutil/simapp"
 	"github.com/tendermint/fundraising/x/fundraising/keeper"
+	fundraising "github.com/tendermint/fundraising/x/fundraising/module"
 	"github.com/tendermint/fundraising/x/fundraising/types"
 )
 
@@ -141,11 +142,16 @@ func (e *Env) Reset() error {
 		&wrapBank{r: e.rec, real: a.BankKeeper},
 		&wrapDistr{r: e.rec, real: a.DistrKeeper},
 	)
-	k.SetHooks(types.NewMultiFundraisingHooks(
-		&listener{idx: 0, r: e.rec},
-		&listener{idx: 1, r: e.rec},
-		&listener{idx: 2, r: e.rec},
-	))
+	// the three listeners are registered the way the application registers other modules' hooks:
+	// through the module's own InvokeSetHooks (depinject wiring, module/module.go), which orders them
+	// lexically by module name — so listener i must be called i-th, in every process
+	if err := fundraising.InvokeSetHooks(&k, map[string]types.FundraisingHooks{
+		"hookmod0-alpha":   &listener{idx: 0, r: e.rec},
+		"hookmod1-bravo":   &listener{idx: 1, r: e.rec},
+		"hookmod2-charlie": &listener{idx: 2, r: e.rec},
+	}); err != nil {
+		return err
+	}
 	e.k = k
 	e.msgs = keeper.NewMsgServerImpl(k)
 	e.query = keeper.NewQueryServerImpl(k)
